@@ -489,6 +489,11 @@ def ops_for(rng, c, absent=True):
         if rng.random() < 0.2:
             q = path[:-1] + ["No Such Stream"] if rng.random() < 0.5 else ["No Such Storage"] + path
             ops.append(("g", q, exp_g(q)))
+        # a letter outside ASCII in the other case (Ü / ü): MS-CFB 2.6.4 would fold it, the reader (and the model)
+        # do not: nothing is demanded either way, model and code must agree
+        q = [("".join(ch.swapcase() if ord(ch) > 127 and len(ch.swapcase()) == 1 else ch for ch in n)) for n in path]
+        if q != path and rng.random() < 0.5:
+            ops.append(("g", q, None))
     if order and rng.random() < 0.5:           # read again (sector cache already filled)
         path = names_path(c, order[0])
         ops.append(("g", path, exp_g(path)))
